@@ -308,10 +308,19 @@ def obligations(tier):
         obs.append(ctor_ob("GaussianPDF", args))
     obs.append(ctor_ob("GaussianDiagPDF", "Sigma"))
     obs.extend(site_obs(prog))
+    # "... also after the object has been multiplied, sliced or queried": the mass / normaliser caches of the results of these
+    # operations are the closed-form values of their natural parameters (shared with C04's invariant obligations)
+    from . import apis, c04
+    for name, cls, ctx, drv in apis.api_list(prog):
+        if name in ("multiply", "hadamard", "slice", "product", "get_density") and not cls.startswith("Conditional"):
+            ob = c04.api_ob(prog, name, cls, ctx, c04._mark_setup(drv))
+            ob.key = "after/" + ob.key
+            ob.group = "after"
+            obs.append(ob)
     return obs
 
 
-FLOORS = {"group:mass": 24, "group:linalg": 2, "group:normalize": 3, "group:ctor": 4, "group:site": 18}
+FLOORS = {"group:mass": 24, "group:linalg": 2, "group:normalize": 3, "group:ctor": 4, "group:site": 18, "group:after": 230}
 LEVEL = "proof"
 EXPLANATION = ("Closed-form mass (compute_lnZ / log_integral* / integral* / integrate('1')), utils/linalg.py against its summary, normalisation, "
                "every density constructor argument combination, and a who-may-construct scan: every library site constructing a GaussianPDF "
